@@ -81,6 +81,12 @@ CHECKS = {
         "technique": SMT + "; symbolic rigid-motion parameters and symbolic query points",
         "design_ref": "DESIGN.md section 5 (C08)",
     },
+    "C10": {
+        "text": "Bounded symbolic check: the matrices and load vectors of Elastic / Thermal problems and of their image under the real Mesh.Rotate / Translate / Symmetry (material axes moved along through the law constructors) are built by the real code with a SYMBOLIC rotation angle (algebraic pair c,s eagerly reduced modulo c^2+s^2=1; axis z in 2-D, exact rational axis in 3-D), symbolic translation, reflection offset and load components; K' = T K T^T, M' = T M T^T, F' = T F are decided for all angles. Beams (Euler-Bernoulli, Timoshenko, 2-D, 3-D): member matrices for exact rational inclinations equal the rotated matrices of the member along x, as identities in a symbolic Young modulus. One end-to-end stubbed solve shows u' = T u for all loads and prescribed values.",
+        "note": "Trusted: Sym arithmetic with eager reduction, z3, exact rational frames for beams; together with C02's unique solvability the matrix identities imply 'the moved problem has the moved solution'. Hyperelastic frame indifference is part of C18. Small meshes; beam inclinations enumerated.",
+        "technique": SMT + "; polynomial identities modulo c^2+s^2=1 in the rotation",
+        "design_ref": "DESIGN.md section 5 (C10)",
+    },
 }
 
 NOT_APPLICABLE = {
